@@ -1,5 +1,6 @@
 ---------------------------- MODULE HInventoryTrace ----------------------------
 EXTENDS HInventory, TLC, Json, IOUtils
+Sf == INSTANCE HSurface
 Progs == JsonDeserialize(IOEnv.TRACE_FILE).progs
 VARIABLE c
 Init == c \in DOMAIN Progs
@@ -11,8 +12,8 @@ Measured(P, kind, name) == LET hits == {j \in DOMAIN P.counts : P.counts[j][1] =
 MeasuredT(P, kind, owner, tparam) == LET hits == {j \in DOMAIN P.tcounts : P.tcounts[j][1] = kind /\ P.tcounts[j][2] = owner /\ P.tcounts[j][3] = tparam} IN
                                      IF hits = {} THEN 999999 ELSE P.tcounts[CHOOSE j \in hits : TRUE][4]
 Bad(P) == {<<pr[1], pr[2], Expected(P, pr[1], pr[2]), Measured(P, pr[1], pr[2])>> :
-             pr \in {q \in Probes(P) : Expresses(P.lang, q[1]) /\ Expected(P, q[1], q[2]) # Measured(P, q[1], q[2])}}
+             pr \in {q \in Probes(P) : Expresses(P.lang, q[1]) /\ Differs(q[1], Expected(P, q[1], q[2]), Measured(P, q[1], q[2]))}}
           \cup {<<pr[1], pr[2] \o "." \o pr[3], ExpectedT(P, pr[1], pr[2], pr[3]), MeasuredT(P, pr[1], pr[2], pr[3])>> :
                  pr \in {q \in TProbes(P) : ExpressesT(P.lang, q[1]) /\ ExpectedT(P, q[1], q[2], q[3]) # MeasuredT(P, q[1], q[2], q[3])}}
-Report == LET P == Progs[c]  b == Bad(P) IN PrintT(ToJson([prog |-> P.id, probes |-> Cardinality(Probes(P)) + Cardinality(TProbes(P)), bad |-> b]))
+Report == LET P == Progs[c]  b == Bad(P) IN PrintT(ToJson([prog |-> P.id, probes |-> Cardinality(Probes(P)) + Cardinality(TProbes(P)), bad |-> b, hbad |-> Sf!SurfaceBad(P), hdrs |-> Sf!Judged(P)]))
 =============================================================================
